@@ -159,17 +159,6 @@ theorem hasKey_iff (l : List (Atom × ℝ)) (a : Atom) :
   unfold hasKey
   simp only [List.any_eq_true, beq_iff_eq, List.mem_map]
 
-theorem lookupD_of_not_mem {l : List (Atom × ℝ)} {a : Atom} (h : a ∉ l.map Prod.fst) :
-    lookupD l a = 0 := by
-  induction l with
-  | nil => rfl
-  | cons e r ih =>
-    obtain ⟨b, y⟩ := e
-    simp only [List.map_cons, List.mem_cons, not_or] at h
-    have hb : ¬ b = a := fun e => h.1 e.symm
-    simp only [lookupD, hb, if_false]
-    exact ih h.2
-
 theorem keys_setKey (l : List (Atom × ℝ)) (a : Atom) (x : ℝ) :
     (setKey l a x).map Prod.fst
       = if a ∈ l.map Prod.fst then l.map Prod.fst else l.map Prod.fst ++ [a] := by
